@@ -1,4 +1,5 @@
-(* Vec/RvChain.v — the unbounded commit / rollback proof for raw vectors (code as of 397122a).
+(* Vec/RvChain.v — the unbounded commit / rollback proof for raw vectors (code as of 397122a + the repair of write()
+   for stored_len above the on-disk length).
    Ghost levels: one per retained snapshot, carrying the UNDERLYING values (also under deleted slots),
    the deleted set, the stamp and the lowest stored length a representative may have.  A change record
    is correct (RecOK) when it carries exactly what separates two adjacent levels.  PROOF file. *)
@@ -83,6 +84,11 @@ Definition BaseRep (s : rv) (g : ghost) : Prop :=
 Definition Clean (s : rv) : Prop :=
   prev_stored_len s = stored_len s /\ pushed s = [] /\ prev_holes s = holes s /\ prev_updated s = updated s.
 
+(* after a rollback made the vector longer than the region, the part of the baseline behind the region's end is
+   in prev_updated (the record of the truncating commit carried it); edits never touch prev_updated *)
+Definition Over (s : rv) : Prop :=
+  forall i, real_stored_len s <= i -> i < stored_len s -> nm_get i (prev_updated s) <> None.
+
 (* a record that leads from level gc back to level gp *)
 Definition RecOK (r : @crecord T) (gp gc : ghost) : Prop :=
   r_stamp r = gst gp /\ r_prev_stored_len r = len (gU gp) /\ r_prev_pushed r = [] /\
@@ -149,7 +155,7 @@ Qed.
 Definition final_of (s1 : rv) : rv := save_rollback_state s1.
 
 Lemma undo_ok (s : rv) (r : @crecord T) gp gc :
-  BaseRep s gc -> Clean s -> RecOK r gp gc -> valid_record enc r ->
+  BaseRep s gc -> Clean s -> Over s -> RecOK r gp gc -> valid_record enc r ->
   exists s1, undo_changes tsize dec (serialize_record enc r) s = (s1, Ok tt) /\
     let s' := save_rollback_state s1 in
     BaseRep s' gp /\ Clean s' /\ rlen s' = len (gU gp) /\
@@ -158,9 +164,10 @@ Lemma undo_ok (s : rv) (r : @crecord T) gp gc :
     stored_len s' = len (gU gp) /\
     (hdr_modified s' = false -> hdr_disk s' = stamp s' \/ (hdr_modified s = false /\ hdr_disk s' = hdr_disk s /\ stamp s' = stamp s)) /\
     (NoDup (nm_keys (updated s)) -> NoDup (nm_keys (updated s'))) /\
-    (forall i, nm_get i (updated s') <> None -> i < stored_len s').
+    (forall i, nm_get i (updated s') <> None -> i < stored_len s') /\
+    Over s'.
 Proof.
-  intros (B1 & B2 & B3 & B4 & B5 & B6 & B7 & B8) (C1 & C2 & C3 & C4)
+  intros (B1 & B2 & B3 & B4 & B5 & B6 & B7 & B8) (C1 & C2 & C3 & C4) Hov
          (K1 & K2 & K3 & K4 & K5 & K6 & K7 & K8 & K9 & K10 & K11 & K12) Hv.
   unfold undo_changes. rewrite (parse_serialize tsize enc dec tsize_pos enc_len dec_enc r Hv).
   unfold project_record. cbn [rcd_base rcd_mods rcd_prev_holes cd_prev_stamp cd_prev_stored_len cd_trunc_start cd_trunc_vals cd_prev_pushed].
@@ -241,7 +248,7 @@ Proof.
   destruct Ff as (M1 & M2 & M3 & M4 & M5 & M6 & M7 & M8 & M9 & M10 & M11 & M12 & M13 & M14 & M15). clearbody sf.
   assert (Pu : forall i, i < psl -> exists x, get (gU gp) i = Some x /\ pu sf i = x).
   { intros i Hi. destruct (Upd i Hi) as (x & Hx & He). exists x. split; auto. unfold pu, RvModel.phys_read in *. now rewrite M9, M5. }
-  split; [|split; [|split; [|split; [|split; [|split; [|split; [|split; [|split; [|split; [|split]]]]]]]]]].
+  split; [|split; [|split; [|split; [|split; [|split; [|split; [|split; [|split; [|split; [|split; [|split]]]]]]]]]]].
   - unfold BaseRep. rewrite M3, M4, M7, M9, M10. fold psl in K2.
     split; [reflexivity|]. split; [exact K2|]. split.
     { intros i Hi. destruct (Pu i ltac:(lia)) as (x & Hx & He). rewrite Hx. now rewrite He. }
@@ -266,6 +273,17 @@ Proof.
     + rewrite G11. apply NoDup_insert_run. rewrite G12. destruct (psl <? stored_len s); auto.
       unfold nm_below. now apply NoDup_keys_filter.
   - intros i Hi. try rewrite M1. try rewrite L1. try rewrite M8 in Hi. try rewrite L10 in Hi. now apply Keys.
+  - (* Over: every restored slot behind the region's end is in the overlay *)
+    unfold Over, real_stored_len. rewrite M1, M5, M9. intros i A1 A2.
+    destruct (in_dec N.eq_dec i (map fst (combine (r_mod_idx r) (r_mod_vals r)))) as [Hin|Hnin].
+    + destruct (H8 i Hin) as (v & _ & ->). discriminate.
+    + rewrite H7 by exact Hnin. rewrite G11, nm_get_insert_run.
+      destruct ((ts <=? i) && (i <? ts + len (r_trunc r))) eqn:Er.
+      * apply andb_true_iff in Er as [Er1 Er2]. destruct (get_lt_some (r_trunc r) (i - ts)) as [x ->]; [lia|discriminate].
+      * assert (Hlt : i < ts) by (destruct (ts <=? i) eqn:Ea; [cbn in Er; lia|lia]).
+        rewrite G12. assert (Hu : nm_get i (updated s) <> None).
+        { rewrite <- C4. apply Hov; [exact A1|lia]. }
+        destruct (psl <? stored_len s); [|exact Hu]. rewrite nm_get_below. destruct (i <? psl) eqn:Eb; [exact Hu|lia].
 Qed.
 
 (* ---- the chain of retained records and the change directory --------------------------------------------- *)
@@ -289,7 +307,7 @@ Definition Dir (s : rv) (g0 : ghost) (rest : list ghost) : Prop :=
 
 Definition K (s : rv) (a : sv T) : Prop :=
   R s a /\ sstamp a = sn_stamp (base a) /\ k s = sk a /\ 0 < k s /\ len (committed a) <= sk a /\
-  stored_len s <= prev_stored_len s /\
+  stored_len s <= prev_stored_len s /\ Over s /\
   exists g0 rest, g_snap g0 (base a) /\ Forall2 g_snap rest (committed a) /\ BaseRep s g0 /\ Dir s g0 rest.
 
 Lemma chain_ok_len g0 rest Fd : chain_ok g0 rest Fd -> length Fd = length rest.
@@ -327,10 +345,10 @@ Theorem rollback_step (s : rv) a : K s a -> Clean s ->
   | Sn :: rest' =>
     exists s', rv_rollback tsize dec s = (s', Ok tt) /\ K s' (fst (sv_rollback a)) /\ Clean s' /\
                view tsize dec s' = sn_contents Sn /\ stamp s' = sn_stamp Sn /\
-               (Inv s -> len (sn_contents Sn) <= slen a -> Inv s')
+               (Inv s -> Inv s')
   end.
 Proof.
-  intros (HR & Hst & Hk & Hkp & Hlen & Hsl & g0 & rest & Hg0 & Hgr & HB & HD) HC.
+  intros (HR & Hst & Hk & Hkp & Hlen & Hsl & Hov & g0 & rest & Hg0 & Hgr & HB & HD) HC.
   pose proof HB as (B1 & B2 & B3 & B4 & B5 & B6 & B7 & B8).
   unfold rv_rollback. destruct (committed a) as [|Sn rest'] eqn:Ec.
   - inversion Hgr; subst. unfold Dir in HD. unfold read_change_file. destruct (changes s) as [l|]; [|reflexivity].
@@ -343,7 +361,7 @@ Proof.
     unfold read_change_file. cbn [rev]. rewrite <- app_assoc. rewrite nm_get_skip.
     2:{ intros p Hp. apply in_rev in Hp. pose proof (chain_ok_tail_lt _ _ _ _ _ _ Hch0 p Hp). lia. }
     cbn [app]. rewrite B8, nm_get_head.
-    destruct (undo_ok s r g1 g0 HB HC Hrec Hv) as (s1 & -> & HB' & HC' & L' & V' & Ch' & K' & Rg' & Hf' & Sl' & Hd' & Nd' & Ky').
+    destruct (undo_ok s r g1 g0 HB HC Hov Hrec Hv) as (s1 & -> & HB' & HC' & L' & V' & Ch' & K' & Rg' & Hf' & Sl' & Hd' & Nd' & Ky' & Ov').
     set (s' := save_rollback_state s1) in *. exists s'. split; [reflexivity|].
     destruct Hg1 as (Gs & Gl & Gv).
     assert (HR' : R s' (fst (sv_rollback a))).
@@ -353,7 +371,7 @@ Proof.
     split.
     { unfold K. unfold sv_rollback. rewrite Ec. cbn [fst contents sstamp base committed sk].
       split; [pose proof HR' as HR2; unfold sv_rollback in HR2; rewrite Ec in HR2; exact HR2|]. split; [reflexivity|]. split; [congruence|]. split; [congruence|].
-      split; [rewrite len_cons in Hlen; lia|]. split; [destruct HC' as (E1 & _); lia|].
+      split; [rewrite len_cons in Hlen; lia|]. split; [destruct HC' as (E1 & _); lia|]. split; [exact Ov'|].
       exists g1, rest_g. split; [repeat split; auto|]. split; [exact Hgr'|]. split; [exact HB'|].
       unfold Dir. rewrite Ch', Ech. exists Fd', ((gst g0, serialize_record enc r) :: fut).
       split; [exact Hch'|]. split; [cbn [rev]; rewrite <- app_assoc; reflexivity|].
@@ -362,10 +380,10 @@ Proof.
     split; [exact HC'|]. split.
     { pose proof (R_view tsize dec s' _ HR') as Hv'. unfold sv_rollback in Hv'. rewrite Ec in Hv'. cbn in Hv'. now symmetry. }
     split; [destruct HB' as (_ & _ & _ & _ & _ & _ & _ & St'); congruence|].
-    intros (I1 & I2 & I3 & I4 & I5 & I6) Hle.
+    intros (I1 & I2 & I3 & I4 & I5 & I6).
     destruct HC as (C1 & C2 & C3 & C4). destruct HR as (_ & R2 & _).
-    unfold RvRefine.Inv. unfold real_stored_len in *. rewrite Rg', L'.
-    split; [rewrite Sl'; unfold rlen in R2; rewrite C2, len_nil in R2; lia|].
+    unfold RvRefine.Inv. rewrite L'.
+    split; [intros i A1 A2; left; destruct HC' as (_ & _ & _ & E4); rewrite <- E4; now apply Ov'|].
     split; [exact Ky'|]. split; [apply Nd'; exact I3|]. split.
     { intros i Hi. destruct HB' as (_ & _ & _ & Hh & _ & _ & Hwf & _). destruct HC' as (_ & _ & E3 & _).
       rewrite <- E3, Hh in Hi. apply Hwf. exact Hi. }
@@ -419,8 +437,9 @@ Lemma commit_shape (s : rv) st : Inv s -> k s <> 0 ->
              (set_prev_updated [] (set_prev_holes (holes s2) (set_prev_pushed [] (set_prev_stored_len (stored_len s2) s2))), Ok tt) /\
     Inv s2 /\ Normal s2 /\ rlen s2 = rlen s /\ holes s2 = holes s /\ stamp s2 = st /\ k s2 = k s /\
     changes s2 = save_change_file (changes s) (k s) (stamp s) st (fst (serialize_raw_changes tsize enc dec s)) /\
-    (forall i, i < rlen s -> uopt s2 i = uopt s i).
+    (forall i, i < rlen s -> backed s i -> uopt s2 i = uopt s i).
 Proof.
+  clear tsize_pos enc_len dec_enc.
   intros HI Hk. unfold rv_commit. destruct (k s =? 0) eqn:Ek; [lia|].
   destruct (serialize_raw_changes tsize enc dec s) as [data stl]. cbn [fst].
   set (s1 := set_changes _ (add_stale stl s)).
@@ -430,13 +449,14 @@ Proof.
   destruct (write_ok_u tsize enc dec (update_stamp st s1) (Inv_update_stamp s1 st HI1)) as (b & s2 & -> & HI2 & HN & L & Hh & St & Pr & U).
   destruct (update_stamp_fields tsize dec s1 st) as (L0 & S0 & P0 & _).
   exists s2. split; [reflexivity|]. split; [exact HI2|]. split; [exact HN|]. split; [rewrite L, L0; reflexivity|].
-  assert (Hu : holes (update_stamp st s1) = holes s /\ forall i, uopt (update_stamp st s1) i = uopt s i).
-  { unfold update_stamp. destruct (stamp s1 =? st); split; reflexivity. }
-  destruct Hu as [Hu1 Hu2].
+  assert (Hu : holes (update_stamp st s1) = holes s /\ (forall i, uopt (update_stamp st s1) i = uopt s i) /\
+               forall i, backed s i -> backed (update_stamp st s1) i).
+  { unfold update_stamp. destruct (stamp s1 =? st); split; try split; try reflexivity; intros i Hb; exact Hb. }
+  destruct Hu as (Hu1 & Hu2 & Hu3).
   split; [congruence|]. split; [congruence|].
   unfold prevf in Pr, P0. injection Pr as Q1 Q2 _ _ _ _. injection P0 as Q3 Q4 _ _ _ _.
   split; [rewrite Q2, Q4; reflexivity|]. split; [rewrite Q1, Q3; reflexivity|].
-  intros i Hi. rewrite U by (rewrite L0; exact Hi). apply Hu2.
+  intros i Hi Hb. rewrite U; [apply Hu2|rewrite L0; exact Hi|apply Hu3; exact Hb].
 Qed.
 
 Lemma In_firstn_sub {A} n (l : list A) x (_u : unit) : In x (firstn n l) -> In x l.
@@ -464,13 +484,18 @@ Proof. rewrite !get_nth_error, nth_error_map. destruct (nth_error l (N.to_nat n)
 Lemma fst_prev_or_disk (s : rv) i : fst (prev_or_disk tsize dec s i) = pu s i.
 Proof. unfold prev_or_disk, pu. destruct (nm_get i (prev_updated s)); reflexivity. Qed.
 
-Lemma build_record_ok (s : rv) g0 st :
+(* gc: the level the commit establishes; below the stored length it carries the baseline value wherever neither
+   `updated` nor prev_updated has an entry *)
+Lemma build_record_ok (s : rv) g0 gc :
   BaseRep s g0 -> (forall i, nm_get i (updated s) <> None -> i < stored_len s) -> stored_len s <= prev_stored_len s ->
-  RecOK (fst (build_record tsize dec s)) g0 (gof s st (stored_len s)).
+  glo gc = stored_len s ->
+  (forall i, i < stored_len s -> nm_get i (updated s) = None -> nm_get i (prev_updated s) = None ->
+     get (gU gc) i = Some (phys_read s i)) ->
+  RecOK (fst (build_record tsize dec s)) g0 gc.
 Proof.
-  intros (B1 & B2 & B3 & B4 & B5 & B6 & B7 & B8) I2 Hsl. unfold build_record. cbn [fst].
+  intros (B1 & B2 & B3 & B4 & B5 & B6 & B7 & B8) I2 Hsl Hglo Hgc. unfold build_record. cbn [fst].
   set (psl := prev_stored_len s) in *. set (sl := stored_len s) in *.
-  unfold RecOK. cbn [r_stamp r_prev_stored_len r_prev_pushed r_trunc r_mod_idx r_mod_vals r_prev_holes gof glo gst].
+  unfold RecOK. cbn [r_stamp r_prev_stored_len r_prev_pushed r_trunc r_mod_idx r_mod_vals r_prev_holes]. rewrite Hglo.
   assert (Ltr : len (map fst (map (prev_or_disk tsize dec s) (seqN sl (N.to_nat (psl - sl))))) = psl - sl).
   { unfold len. rewrite !map_length, seqN_length. lia. }
   split; [exact B8|]. split; [exact B2|]. split; [exact B1|]. split; [rewrite Ltr; lia|]. split; [rewrite Ltr; lia|].
@@ -483,14 +508,13 @@ Proof.
     { apply in_all_keys in Hin as [Hin|Hin]; apply nm_get_keys in Hin; [specialize (I2 i Hin); lia|exact (B6 i Hin)]. }
     split; [exact Hi|]. rewrite map_map, get_map, Hn, fst_prev_or_disk. symmetry. apply B3. lia. }
   split; [intros i; rewrite ns_mem_of_list; apply B4|]. split.
-  { intros i Hi Hnin. change (get (gU (gof s st sl)) i = get (gU g0) i).
-    assert (Hr : i < rlen s) by (unfold rlen; fold sl; lia). rewrite gof_get by exact Hr.
-    rewrite B3 by lia. unfold RvRefine.uopt, pu. fold sl. destruct (sl <=? i) eqn:E; [lia|].
+  { intros i Hi Hnin.
+    rewrite B3 by lia. unfold pu.
     assert (Hu : nm_get i (updated s) = None).
     { destruct (nm_get i (updated s)) eqn:Eg; auto. exfalso. apply Hnin. apply in_all_keys. left. apply nm_get_keys. congruence. }
     assert (Hp : nm_get i (prev_updated s) = None).
     { destruct (nm_get i (prev_updated s)) eqn:Eg; auto. exfalso. apply Hnin. apply in_all_keys. right. apply nm_get_keys. congruence. }
-    now rewrite Hu, Hp. }
+    rewrite Hp. apply Hgc; auto. }
   split; [exact B5|exact B7].
 Qed.
 
@@ -532,7 +556,7 @@ Theorem commit_step (s : rv) a st : K s a -> Inv s -> sstamp a < st ->
   let a' := fst (sstep a (Commit st)) in
   snd (rv_commit tsize enc dec st s) = Ok tt /\ K s' a' /\ Inv s' /\ Clean s'.
 Proof.
-  intros (HR & Hst & Hk & Hkp & Hlen & Hsl & g0 & rest & Hg0 & Hgr & HB & HD) HI Hlt Hv.
+  intros (HR & Hst & Hk & Hkp & Hlen & Hsl & Hov & g0 & rest & Hg0 & Hgr & HB & HD) HI Hlt Hv.
   pose proof HB as (B1 & B2 & B3 & B4 & B5 & B6 & B7 & B8). pose proof HI as (I1 & I2 & I3 & I4 & I5 & I6).
   pose proof HR as (R1 & R2 & R3).
   destruct (step_refines tsize enc dec s a (Commit st) HI HR I) as (HI3 & HR3 & _).
@@ -546,24 +570,38 @@ Proof.
                changes s3 = changes s2 /\ reg s3 = reg s2).
   { unfold s3. cbn. unfold rlen in *. rewrite N1, len_nil in L2. repeat split; auto; try congruence; lia. }
   destruct F3 as (F1 & F2 & F3 & F4 & F5 & F6 & F7 & F8 & F9 & F10 & F11 & F12). clearbody s3.
-  set (gnew := gof s st (stored_len s)).
-  assert (Hrec : RecOK (fst (build_record tsize dec s)) g0 gnew) by (apply build_record_ok; auto).
+  set (gnew := gof s2 st (stored_len s)).
+  assert (Hbk : forall i, i < rlen s -> ns_mem i (holes s) = false -> backed s i).
+  { intros i Hi Hm. unfold backed.
+    destruct (N.lt_ge_cases i (real_stored_len s)) as [A|A]; [now left|]. right.
+    destruct (N.le_gt_cases (stored_len s) i) as [B|B]; [now left|]. right.
+    destruct (I1 i A B) as [C|C]; [exact C|congruence]. }
+  assert (Hrec : RecOK (fst (build_record tsize dec s)) g0 gnew).
+  { apply build_record_ok; auto. intros i Hi Hu Hp.
+    assert (Hr : i < rlen s) by (unfold rlen; lia).
+    unfold gnew. rewrite gof_get by (rewrite L2; exact Hr).
+    assert (Hreal : i < real_stored_len s).
+    { destruct (N.lt_ge_cases i (real_stored_len s)) as [A|A]; [exact A|]. exfalso. exact (Hov i A Hi Hp). }
+    rewrite U2 by (auto; left; exact Hreal). unfold RvRefine.uopt. destruct (stored_len s <=? i) eqn:E; [lia|]. now rewrite Hu. }
   split; [reflexivity|]. split; [|split; [exact HI3|]].
   - unfold K. cbn [sstep fst]. destruct (sk a =? 0) eqn:Ek; [lia|]. cbn [fst contents sstamp base committed sk sn_stamp].
     split; [cbn [sstep fst] in HR3; rewrite Ek in HR3; exact HR3|]. split; [reflexivity|]. split; [congruence|]. split; [rewrite F6; exact Hkp|].
     split; [rewrite len_take; lia|]. split; [lia|].
+    split.
+    { unfold Over, real_stored_len. rewrite F1, F12. unfold real_stored_len, rlen in *. rewrite N1, len_nil in L2. intros i A1 A2. lia. }
     exists gnew, (take (sk a) (g0 :: rest)). split.
-    { unfold g_snap. cbn [sn_stamp sn_contents]. unfold gnew. rewrite gof_len. split; [reflexivity|]. split; [exact R2|].
-      intros i Hi. rewrite (R3 i Hi), view_at_uopt. unfold mview. cbn [gof gH]. fold gnew.
-      destruct (ns_mem i (holes s)); [reflexivity|]. f_equal. symmetry. apply gof_get. exact Hi. }
+    { unfold g_snap. cbn [sn_stamp sn_contents]. unfold gnew. rewrite gof_len, L2. split; [reflexivity|]. split; [exact R2|].
+      intros i Hi. rewrite (R3 i Hi), view_at_uopt. unfold mview. cbn [gof gH]. rewrite Hh2.
+      destruct (ns_mem i (holes s)) eqn:Em; [reflexivity|]. f_equal. rewrite gof_get by (rewrite L2; exact Hi).
+      symmetry. apply U2; auto. }
     split; [apply Forall2_take; constructor; auto|]. split.
-    { unfold BaseRep. rewrite F8, F7, F9, F10, F5. unfold gnew. rewrite gof_len. cbn [gof gH glo gst].
+    { unfold BaseRep. rewrite F8, F7, F9, F10, F5. unfold gnew. rewrite gof_len, L2. cbn [gof gH glo gst].
       split; [reflexivity|]. split; [reflexivity|]. split.
-      { intros i Hi. rewrite gof_get by exact Hi. rewrite <- U2 by exact Hi. unfold RvRefine.uopt, pu, RvModel.phys_read.
+      { intros i Hi. rewrite gof_get by (rewrite L2; exact Hi). unfold RvRefine.uopt, pu, RvModel.phys_read.
         rewrite F10, F12. unfold rlen in L2, Hi. rewrite N1, len_nil in L2.
         destruct (stored_len s2 <=? i) eqn:E; [lia|]. rewrite N2. reflexivity. }
-      split; [reflexivity|]. split; [unfold rlen; lia|]. split; [intros i Hi; cbv [nm_get] in Hi; congruence|].
-      split; [|reflexivity]. unfold g_wf. intros i Hi. rewrite gof_len. cbn [gof gH] in Hi. now apply I4. }
+      split; [intros i; now rewrite Hh2|]. split; [unfold rlen; lia|]. split; [intros i Hi; cbv [nm_get] in Hi; congruence|].
+      split; [|reflexivity]. unfold g_wf. intros i Hi. rewrite gof_len, L2. cbn [gof gH] in Hi. rewrite Hh2 in Hi. now apply I4. }
     { rewrite <- Hk. eapply dir_after_commit; eauto.
       all: try (rewrite <- B8, <- R1; exact Hlt).
       all: try (rewrite F11, Ch2, fst_serialize; reflexivity). }
@@ -578,6 +616,7 @@ Lemma edit_frame (s : rv) o : is_edit_op o ->
   let s' := fst (step tsize enc dec s o) in
   reg s' = reg s /\ prevf s' = prevf s /\ stamp s' = stamp s /\ stored_len s' <= stored_len s.
 Proof.
+  clear tsize_pos enc_len dec_enc.
   destruct o; cbn [is_edit_op]; try contradiction; intros _; cbn [RvRollback.step].
   - cbn. repeat split; lia.
   - unfold rv_truncate, truncate_pushed, truncate_dirty_at. cbn [stored_len pushed set_updated set_holes].
@@ -614,17 +653,60 @@ Theorem edit_step (s : rv) a o : K s a -> Inv s -> is_edit_op o ->
   K (fst (step tsize enc dec s o)) (fst (sstep a o)) /\ Inv (fst (step tsize enc dec s o)) /\
   res_rel o (snd (step tsize enc dec s o)) (snd (sstep a o)).
 Proof.
-  intros (HR & Hst & Hk & Hkp & Hlen & Hsl & g0 & rest & Hg0 & Hgr & HB & HD) HI He.
+  intros (HR & Hst & Hk & Hkp & Hlen & Hsl & Hov & g0 & rest & Hg0 & Hgr & HB & HD) HI He.
   assert (Hp : plain_op o) by (destruct o; cbn in *; auto).
   destruct (step_refines tsize enc dec s a o HI HR Hp) as (HI' & HR' & Hres).
   destruct (edit_frame s o He) as (Fr & Fp & Fs & Fl). destruct (edit_spec_frame a o He) as (E1 & E2 & E3 & E4).
   unfold prevf in Fp. injection Fp as P1 P2 P3 P4 P5 P6.
   split; [|split; [exact HI'|exact Hres]].
   unfold K. rewrite E1, E2, E3, E4, P2, P4. split; [exact HR'|]. split; [exact Hst|]. split; [exact Hk|]. split; [exact Hkp|].
-  split; [exact Hlen|]. split; [lia|]. exists g0, rest. split; [exact Hg0|]. split; [exact Hgr|]. split.
+  split; [exact Hlen|]. split; [lia|].
+  split; [unfold Over, real_stored_len in *; rewrite Fr, P6; intros i A1 A2; apply Hov; [exact A1|lia]|].
+  exists g0, rest. split; [exact Hg0|]. split; [exact Hgr|]. split.
   - destruct HB as (B1 & B2 & B3 & B4 & B5 & B6 & B7 & B8). unfold BaseRep, pu, RvModel.phys_read. rewrite P3, P4, P5, P6, Fr, Fs. auto 10.
   - unfold Dir in *. rewrite P1, Fs. exact HD.
 Qed.
+
+(* ---- without rollbacks the vector never gets longer than its region ------------------------------------------------ *)
+(* RvRefine.Inv allows stored_len above the on-disk length (the state a rollback of a truncating commit leaves); the
+   histories of C03 (no rollback) never reach it: R2 of DESIGN.md B.1 in its original form *)
+Lemma plain_step_not_expanded (s : rv) o : Inv s -> stored_len s <= real_stored_len s -> plain_op o ->
+  stored_len (fst (step tsize enc dec s o)) <= real_stored_len (fst (step tsize enc dec s o)).
+Proof.
+  clear tsize_pos enc_len dec_enc.
+  intros HI Hle Hp. pose proof HI as (_ & _ & _ & _ & _ & I6).
+  assert (Ed : is_edit_op o -> stored_len (fst (step tsize enc dec s o)) <= real_stored_len (fst (step tsize enc dec s o))).
+  { intros He. destruct (edit_frame s o He) as (Fr & _ & _ & Fl). unfold real_stored_len in *. rewrite Fr. lia. }
+  assert (Fa : forall f st, stored_len (fault_file f st s) <= real_stored_len (fault_file f st s)).
+  { intros f st. unfold fault_file. destruct (changes s); [destruct (nm_get st l); [destruct (f l0)|]|]; exact Hle. }
+  destruct o; cbn [plain_op] in Hp; try contradiction; try (apply Ed; exact I); cbn [RvRollback.step].
+  - destruct (write_ok tsize enc dec s HI) as (b & s' & -> & _ & HN & _). cbn [fst]. destruct HN as (_ & _ & N3 & _). lia.
+  - destruct (write_ok tsize enc dec s HI) as (b & s' & -> & _ & HN & _). cbn [fst]. destruct HN as (_ & _ & N3 & _). lia.
+  - destruct (reset_fields s I6) as (_ & F2 & _). cbn [fst]. rewrite F2. lia.
+  - destruct (write_ok tsize enc dec s HI) as (b & s' & -> & _ & HN & _). cbn [fst]. unfold rv_reimport, real_stored_len. cbn. lia.
+  - destruct (k s =? 0) eqn:Ek.
+    + unfold rv_commit. rewrite Ek. destruct (stamped_write_ok tsize enc dec s st HI) as (s' & -> & _ & HN & _). cbn [fst].
+      destruct HN as (_ & _ & N3 & _). lia.
+    + destruct (commit_shape s st HI ltac:(lia)) as (s2 & -> & _ & HN & _). cbn [fst]. destruct HN as (_ & _ & N3 & _).
+      unfold real_stored_len in *. cbn. lia.
+  - destruct (stamped_write_ok tsize enc dec s st HI) as (s' & -> & _ & HN & _). cbn [fst]. destruct HN as (_ & _ & N3 & _). lia.
+  - cbn [fst]. apply Fa.
+  - cbn [fst]. apply Fa.
+  - cbn [fst]. apply Fa.
+Qed.
+
+Theorem run_not_expanded h : forall (s : rv), Inv s -> stored_len s <= real_stored_len s -> Forall (@plain_op T) h ->
+  stored_len (run tsize enc dec s h) <= real_stored_len (run tsize enc dec s h).
+Proof.
+  clear tsize_pos enc_len dec_enc.
+  induction h as [|o t IH]; intros s HI Hle Hp; cbn [RvRollback.run]; [exact Hle|].
+  inversion Hp as [|? ? Ho Ht]; subst. apply IH; [|apply plain_step_not_expanded; auto|exact Ht].
+  destruct (step_refines tsize enc dec s _ o HI (R_of_view tsize dec s) Ho) as (HI' & _). exact HI'.
+Qed.
+Theorem reachable_not_expanded k0 h : Forall (@plain_op T) h ->
+  stored_len (run tsize enc dec (rv_init k0) h) <= real_stored_len (run tsize enc dec (rv_init k0) h).
+Proof.
+  clear tsize_pos enc_len dec_enc. intros Hp. apply run_not_expanded; [apply Inv_init|cbn; lia|exact Hp]. Qed.
 
 (* ---- the initial state ------------------------------------------------------------------------------------------- *)
 Lemma K_init k0 : 0 < k0 -> K (rv_init k0) (sv_init k0) /\ Clean (rv_init k0).
@@ -632,6 +714,7 @@ Proof.
   intros Hk. split; [|unfold Clean; cbn; auto].
   unfold K. split; [apply R_init|]. cbn [sv_init sstamp base sn_stamp committed sk rv_init k stored_len prev_stored_len].
   split; [reflexivity|]. split; [reflexivity|]. split; [exact Hk|]. split; [unfold len; cbn [length]; lia|]. split; [lia|].
+  split; [unfold Over; cbn; intros i A1 A2; lia|].
   exists (mkG [] [] 0 0), []. split.
   { unfold g_snap. cbn [sn_stamp sn_contents gst gU]. unfold len. cbn [length].
     split; [reflexivity|]. split; [reflexivity|]. intros i Hi. lia. }
@@ -683,10 +766,6 @@ Proof.
 Qed.
 
 (* ---- rollback_before ------------------------------------------------------------------------------------------------ *)
-(* no rollback on the way lengthens the vector (outside KnownClass_rollback_of_truncation) *)
-Fixpoint nonlen (cur : N) (l : list (snapshot T)) : Prop :=
-  match l with [] => True | Sn :: t => len (sn_contents Sn) <= cur /\ nonlen (len (sn_contents Sn)) t end.
-
 Lemma chain_stamps_spec : forall rest g0 Fd (Ss : list (snapshot T)) S0,
   chain_ok g0 rest Fd -> g_snap g0 S0 -> Forall2 g_snap rest Ss ->
   map fst Fd = map (@sn_stamp T) (firstn (length Ss) (S0 :: Ss)).
@@ -701,7 +780,7 @@ Qed.
 Lemma sel_of_K (s : rv) a l : K s a -> changes s = Some l ->
   rev (filter (fun f => f <=? stamp s) (map fst l)) = map (@sn_stamp T) (firstn (length (committed a)) (base a :: committed a)).
 Proof.
-  intros (HR & Hst & Hk & Hkp & Hlen & Hsl & g0 & rest & Hg0 & Hgr & HB & HD) Hl.
+  intros (HR & Hst & Hk & Hkp & Hlen & Hsl & Hov & g0 & rest & Hg0 & Hgr & HB & HD) Hl.
   unfold Dir in HD. rewrite Hl in HD. destruct HD as (Fd & fut & Hc & -> & Hfut).
   rewrite <- (chain_stamps_spec rest g0 Fd (committed a) (base a) Hc Hg0 Hgr).
   destruct HB as (_ & _ & _ & _ & _ & _ & _ & B8).
@@ -715,7 +794,7 @@ Qed.
 Lemma rb_loop_spec (target : N) : forall (n : nat) (s : rv) a, K s a -> Clean s -> length (committed a) = n ->
   exists s', rb_loop tsize dec (map (@sn_stamp T) (firstn n (base a :: committed a))) target s = (s', Ok tt) /\
     K s' (sv_rollback_before (Datatypes.S n) target a) /\ Clean s' /\
-    (Inv s -> nonlen (slen a) (committed a) -> Inv s').
+    (Inv s -> Inv s').
 Proof.
   induction n as [|n IH]; intros s a HK HC Hn.
   - destruct (committed a) eqn:Ec; [|discriminate]. cbn [firstn map rb_loop sv_rollback_before].
@@ -731,7 +810,7 @@ Proof.
       destruct (IH s1 _ HK1 HC1) as (s' & Hl & HK' & HC' & HI').
       { cbn. cbn in Hn. lia. }
       cbn [base committed] in Hl. exists s'. split; [exact Hl|]. split; [exact HK'|]. split; [exact HC'|].
-      intros HI Hnl. cbn [nonlen] in Hnl. destruct Hnl as [Hn1 Hn2]. apply HI'; [apply HI1; auto|]. exact Hn2.
+      intros HI. apply HI'. apply HI1. exact HI.
 Qed.
 
 (* C04_rollback_before: it ends exactly where the reference ends (the newest committed state with a stamp below the
@@ -739,7 +818,7 @@ Qed.
 Theorem rollback_before_spec (s : rv) a target : K s a -> Clean s -> changes s <> None ->
   let a' := sv_rollback_before (Datatypes.S (length (committed a))) target a in
   exists s', rv_rollback_before tsize dec target s = (s', Ok (sstamp a')) /\ K s' a' /\ Clean s' /\
-             view tsize dec s' = contents a' /\ (Inv s -> nonlen (slen a) (committed a) -> Inv s').
+             view tsize dec s' = contents a' /\ (Inv s -> Inv s').
 Proof.
   intros HK HC Hch. cbv zeta. unfold rv_rollback_before, find_rollback_files.
   destruct (changes s) as [l|] eqn:El; [|congruence].
@@ -756,7 +835,8 @@ Proof. intros H. unfold rv_rollback_before, find_rollback_files. rewrite H. refl
 
 (* ---- C04_continuation: every strict history ------------------------------------------------------------------------- *)
 (* strict histories (retention > 0): edits, commits with increasing stamps whose record fits 64 bits, rollbacks and
-   rollback_before from committed states that do not lengthen the vector (outside KnownClass_rollback_of_truncation).
+   rollback_before from committed states — also those that LENGTHEN the vector beyond its region (they undo a truncating
+   commit; findings 3/4 before write() was repaired to extend the region first).
    Plain write/flush/re-import/reset between commits are not in this class (they are in C03's, and in the bounded
    C04 statement). *)
 Definition next_ed (edited : bool) (o : @op T) : bool :=
@@ -767,8 +847,8 @@ Fixpoint strict (edited : bool) (s : rv) (a : sv T) (h : list (@op T)) : Prop :=
   | o :: t =>
     (match o with
      | Commit st => sstamp a < st /\ valid_record enc (fst (build_record tsize dec s))
-     | Rollback => edited = false /\ nonlen (slen a) (firstn 1 (committed a))
-     | RollbackBefore _ => edited = false /\ changes s <> None /\ nonlen (slen a) (committed a)
+     | Rollback => edited = false
+     | RollbackBefore _ => edited = false /\ changes s <> None
      | Push _ | Truncate _ | Update _ _ | Delete _ | Take _ | Fill _ => True
      | _ => False
      end) /\ strict (next_ed edited o) (fst (step tsize enc dec s o)) (fst (sstep a o)) t
@@ -807,12 +887,12 @@ Proof.
     - destruct Ho as [Hlt Hv]. destruct (commit_step s a st HK HI Hlt Hv) as (A & B & C & D).
       cbn [RvRollback.step sstep]. destruct (rv_commit tsize enc dec st s) as [s' r]. cbn [fst snd] in *. subst r.
       cbn [of_unit]. split; [destruct (sk a =? 0); reflexivity|split; [exact B|split; [exact C|intros _; exact D]]].
-    - destruct Ho as [He Hnl]. specialize (HC He). pose proof (rollback_step s a HK HC) as Hr.
+    - rename Ho into He. specialize (HC He). pose proof (rollback_step s a HK HC) as Hr.
       cbn [RvRollback.step sstep]. unfold sv_rollback in *. destruct (committed a) as [|Sn rest'] eqn:Ec.
       + rewrite Hr. cbn [fst snd of_unit]. split; [reflexivity|split; [exact HK|split; [exact HI|intros _; exact HC]]].
       + destruct Hr as (s' & -> & HK' & HC' & _ & _ & HI'). cbn [fst snd of_unit]. cbn [fst] in HK'.
-        split; [reflexivity|split; [exact HK'|split; [|intros _; exact HC']]]. apply HI'; auto. cbn [firstn nonlen] in Hnl. tauto.
-    - destruct Ho as (He & Hch & Hnl). specialize (HC He).
+        split; [reflexivity|split; [exact HK'|split; [|intros _; exact HC']]]. apply HI'; auto.
+    - destruct Ho as (He & Hch). specialize (HC He).
       destruct (rollback_before_spec s a st HK HC Hch) as (s' & Hr & HK' & HC' & _ & HI').
       cbn [RvRollback.step sstep]. rewrite Hr. cbn [fst snd]. split; [reflexivity|split; [exact HK'|split; [apply HI'; auto|intros _; exact HC']]]. }
   destruct Step as (S1 & S2 & S3 & S4).
